@@ -14,7 +14,9 @@ RULE = ("equilibrium / noisy Voronoi and Moebius tissues, jittered and exact squ
 TRUSTED = ["Model/ForceSys.v angle_limited_edges / reinsert tied to fmatrix.get_angle_limited_edges / get_solution_no_discarded by "
            "exact correspondence; Model/AngleLimit.v flagged_junctions (all pairs of directions, clipped dot <= cos(limit)) tied to fm.deletes by a "
            "PrimFloat correspondence on the implementation's versors (circle fit, arccos and cos are oracles)"]
-ASSUMPTIONS = ["restricted-system solution compared with an independent scipy NNLS solve of the restricted augmented system, tolerance 1e-6"]
+ASSUMPTIONS = ["restricted-system solution compared with an independent scipy NNLS solve of the restricted augmented system, tolerance 1e-6; for method='lsq' (bounded "
+               "Levenberg-Marquardt, which stops near the constrained optimum): the back-end received exactly the restricted system, the residual it reached is within 1 % (+ 1e-7 (1 + |b|)) of "
+               "the optimum and the distance to the optimum is within sqrt(r_x^2 - r_z^2)/sigma_min + 5e-3"]
 TESTED_NOT_PROVED = ["'every other position holds the solution of the restricted system' is compared numerically with an independent solve",
                      "default-limit clause: checked on tissues without exactly straight-through interface pairs (arccos(-1) = pi ties excluded)"]
 IMPORTS = "From Forsys Require Import Model.Num Model.CaseUtil Model.PyList Model.ForceSys Model.AngleLimit.\n"
@@ -82,7 +84,7 @@ def check_case(res, spec, limit, method, exprs, label):
             kws["method"] = "lsq"
             kws["initial_condition"] = list(np.ones(len(internal)) if len(internal) % 2 else np.linspace(0.5, 1.5, len(internal)))
         try:
-            with impl.quiet():
+            with impl.quiet(), impl.capture_solvers() as rec:
                 f.solve_stress(when=0, **kws)
         except Exception as ex:  # noqa
             bad.append(f"solve_stress raised {type(ex).__name__}: {str(ex)[:80]}")
@@ -106,9 +108,24 @@ def check_case(res, spec, limit, method, exprs, label):
             if not determined:
                 res.count("restricted system does not determine the tensions uniquely (value comparison skipped)")
             if len(kept) == M.shape[1] and determined:
-                tol = 1e-6 if method != "lsq" else 5e-3
-                if np.max(np.abs(np.array(kept) - z[:-1])) > tol * (1 + np.max(np.abs(z))):
-                    bad.append(f"kept positions differ from the restricted-system solution by {np.max(np.abs(np.array(kept) - z[:-1])):.3g}")
+                diff = float(np.max(np.abs(np.array(kept) - z[:-1])))
+                if method != "lsq":
+                    if diff > 1e-6 * (1 + np.max(np.abs(z))):
+                        bad.append(f"kept positions differ from the restricted-system solution by {diff:.3g}")
+                else:
+                    # Levenberg-Marquardt with bounded parameters stops near, not at, the constrained optimum when many tensions sit at zero
+                    # (what "within solver tolerance" means for it is C05's subject: its certificate accepts these points).  Here: the
+                    # residual it reached on the restricted system is within 1 % of the optimum, and since z minimises over a convex set,
+                    # |A(x - z)|^2 <= |Ax - b|^2 - |Az - b|^2, so |x - z| <= sqrt(r_x^2 - r_z^2) / sigma_min
+                    solved = [c_ for c_ in rec.calls if c_.get("x") is not None and c_.get("solver") == "lmfit"]
+                    xs = np.array(solved[-1]["x"], dtype=float) if solved else np.concatenate([np.array(kept), [z[-1]]])
+                    r_x, r_z = float(np.linalg.norm(A @ xs - b)), float(np.linalg.norm(A @ z - b))
+                    if solved and (np.array(solved[-1]["A"]).shape != A.shape or np.max(np.abs(np.array(solved[-1]["A"]) - A)) > 0):
+                        bad.append("the system handed to the Levenberg-Marquardt back-end is not the restricted augmented system")
+                    elif r_x > 1.01 * r_z + 1e-7 * (1.0 + float(np.linalg.norm(b))):
+                        bad.append(f"kept positions leave a residual of {r_x:.6g} on the restricted system, its non-negative optimum is {r_z:.6g}")
+                    elif diff > math.sqrt(max(r_x * r_x - r_z * r_z, 0.0)) / float(sv[-1]) + 5e-3 * (1 + np.max(np.abs(z))):
+                        bad.append(f"kept positions differ from the restricted-system solution by {diff:.3g}, more than the residual they leave allows")
             # the matrix must be the restricted one: columns = used interfaces
             if M.shape[1] != len(exp_used):
                 bad.append(f"matrix has {M.shape[1]} columns for {len(exp_used)} used interfaces")
